@@ -73,7 +73,7 @@ MANIFEST = dict(
 # rules that keep their verdict however the code is laid out: decided by bounded evaluation of the parsed code against the
 # specification (every `eval::` instance), by term equality, reaching definitions, effect analysis or dominance over resolved calls.
 # Every other rule instance of this check is a template rule (vcheck.core.Check.ob / set_templates).
-SEMANTIC = ('R02.1b', 'R02.1c', 'R02.1e', 'R02.1g', 'R02.2a', 'R02.2b', 'R02.2c', 'R02.4', 'R02.6b', 'R02.6c', 'R02.6f', 'R02.7i', 'R02.7k',
+SEMANTIC = ('R02.5g', 'R02.7l', 'R02.1b', 'R02.1c', 'R02.1e', 'R02.1g', 'R02.2a', 'R02.2b', 'R02.2c', 'R02.4', 'R02.6b', 'R02.6c', 'R02.6f', 'R02.7i', 'R02.7k',
             'R02.1f::eval::', 'R02.1f::sem::', 'R02.3a::eval::', 'R02.3a::sem::', 'R02.3b::eval::', 'R02.3c::eval::', 'R02.3d::eval::',
             'R02.5b::eval::', 'R02.5b::sem::', 'R02.5c::eval::', 'R02.5d::eval::', 'R02.5e::eval::', 'R02.5f::eval::',
             'R02.6a::eval::', 'R02.6d::eval::', 'R02.6e::eval::',
@@ -3505,7 +3505,7 @@ def _synonym_merges(cfg, view):
     return merges
 
 
-def _fast_path_guarded(repo, rd, cfg, view, n):
+def _fast_path_guarded(repo, rd, cfg, view, n, kinds=None):
     """(ok, text): do the branch outcomes that control CFG node n of Recfile.read establish that the file is binary, that all rows and
     that all columns are requested?  The tests are taken apart after forward substitution of the temporaries they mention, so it does
     not matter whether the three conditions sit in one test, in nested tests or in named flags.
@@ -3596,9 +3596,242 @@ def _fast_path_guarded(repo, rd, cfg, view, n):
                     syn_none.add(f[1])
     if syn_none == set(SYN):
         got.add("cols")         # neither synonym carries a column request
+    if kinds is not None:
+        kinds.extend(sorted(got))
     missing = [k for k in ("binary", "rows", "cols") if k not in got]
     return not missing, ("binary file, all rows and all columns established" if not missing else
                          "not established: %s" % ", ".join({"binary": "the file is binary", "rows": "all rows are requested", "cols": "all columns are requested"}[k] for k in missing))
+
+
+_RPG_BUILTINS = ("len", "int", "bool", "abs", "slice", "min", "max", "float", "isinstance", "long")
+_RPG_SELF_CALLS = ("_get_rows2read", "_get_colnums_to_read")
+
+
+def _row_progression_guard(rd, cfg, view, n, call, kinds):
+    """R02.5g (ok, text) for one call of the slice reader in Recfile.read at CFG node n.
+
+    The slice reader transfers the rows start, start+step, ...: it returns the requested rows only when the request is all rows
+    (kinds has 'rows': established by the guarding tests) or when the guarding tests establish that the row array IS that arithmetic
+    progression, which is a statement about every element of the array.  A guard that looks at the row array only through single
+    elements at constant positions, its size and `is None` is a function of finitely many scalars: for a request of three or more rows
+    it holds for arrays that are not a progression as well.
+      True   all rows established
+      False  not established, the call is not in a loop, and everything the guarding tests and the call's arguments depend on is
+             (after forward substitution of temporaries, followed through the definitions of the remaining locals) built from such
+             scalar reads of the row request, self attributes the function does not assign, other parameters and constants, and no
+             test bounds the size of the request by two
+      None   anything else (a quantified fact, a helper that is given the row array, a loop, ...)"""
+    if "rows" in kinds:
+        return True, "all rows established by the guarding tests"
+    tests = []
+    for b, lab in view.controlling_branches(n):
+        if b.kind == "loop":
+            return None, "the call is inside a loop"
+        if b.kind == "branch":
+            tests.append((rules.expand(b.ast.test, rd.node), lab == "T"))
+    fn = rd.node
+    stores = set()
+    rownames = {p for p in rd.params if p == "rows"}
+    assigns = {}
+    inloop = set()
+    for x in walk_no_nested(fn):
+        if isinstance(x, (ast.For, ast.While, ast.AsyncFor)):
+            for y in ast.walk(x):
+                if isinstance(y, ast.Name) and isinstance(y.ctx, ast.Store):
+                    inloop.add(y.id)
+        if isinstance(x, ast.Attribute) and isinstance(x.ctx, (ast.Store, ast.Del)) and isinstance(x.value, ast.Name) and x.value.id == "self":
+            stores.add(x.attr)
+        if isinstance(x, ast.Assign):
+            for t in x.targets:
+                for tt in ([t] if isinstance(t, ast.Name) else list(t.elts) if isinstance(t, (ast.Tuple, ast.List)) else []):
+                    if isinstance(tt, ast.Name):
+                        assigns.setdefault(tt.id, []).append(x.value)
+                        if isinstance(x.value, ast.Call) and call_name(x.value) == "_get_rows2read" and tt is t:
+                            rownames.add(tt.id)
+        elif isinstance(x, (ast.AugAssign, ast.AnnAssign, ast.NamedExpr)) and isinstance(x.target, ast.Name):
+            assigns.setdefault(x.target.id, []).append(None)
+        elif isinstance(x, (ast.With, ast.ExceptHandler, ast.Import, ast.ImportFrom, ast.Global, ast.Nonlocal, ast.Delete, ast.Try)):
+            if not isinstance(x, ast.Try):
+                return None, "the function binds names in a way that is not followed (%s)" % type(x).__name__
+    # a name is a row request only if every binding of it is the parameter or a result of the normaliser
+    for v in list(rownames):
+        if any(not (isinstance(a, ast.Call) and call_name(a) == "_get_rows2read") for a in assigns.get(v, [])) or v in inloop:
+            return None, "`%s` is rebound to something that is not the normalised row request" % v
+    if not rownames:
+        return None, "no row request found"
+    seen = []
+
+    def scalar_only(e, depth=0):
+        """None when fine, else the text of what is not a scalar read"""
+        if depth > 5:
+            return "definitions nested too deeply"
+        parents = {}
+        for p in ast.walk(e):
+            for c in ast.iter_child_nodes(p):
+                parents[id(c)] = p
+        for x in ast.walk(e):
+            if isinstance(x, (ast.Lambda, ast.ListComp, ast.SetComp, ast.DictComp, ast.GeneratorExp, ast.Starred, ast.Await, ast.Yield,
+                              ast.YieldFrom, ast.NamedExpr)):
+                return "`%s`" % norm(x)
+            if isinstance(x, ast.Call):
+                d = dotted_name(x.func) or ""
+                if not ((isinstance(x.func, ast.Name) and x.func.id in _RPG_BUILTINS) or
+                        (d.startswith("self.") and d[5:] in _RPG_SELF_CALLS)):
+                    return "the call `%s`" % norm(x)[:60]
+                if any(k.arg is None for k in x.keywords):
+                    return "the call `%s`" % norm(x)[:60]
+            if isinstance(x, ast.Attribute) and isinstance(x.value, ast.Name) and x.value.id == "self" and x.attr in stores:
+                return "`self.%s`, which the function assigns" % x.attr
+            if not (isinstance(x, ast.Name) and isinstance(x.ctx, ast.Load)):
+                continue
+            p = parents.get(id(x))
+            if x.id in rownames:
+                if isinstance(p, ast.Call) and (dotted_name(p.func) or "").startswith("self.") and call_name(p) == "_get_rows2read":
+                    continue        # the normaliser itself (substituted definition of the request)
+                if isinstance(p, ast.Subscript) and p.value is x:
+                    i = p.slice
+                    if isinstance(i, ast.UnaryOp) and isinstance(i.op, ast.USub):
+                        i = i.operand
+                    if isinstance(i, ast.Constant) and isinstance(i.value, int) and not isinstance(i.value, bool):
+                        continue
+                    return "`%s`" % norm(p)
+                if isinstance(p, ast.Attribute) and p.attr in ("size", "shape", "ndim"):
+                    continue
+                if isinstance(p, ast.Call) and isinstance(p.func, ast.Name) and p.func.id == "len" and len(p.args) == 1:
+                    continue
+                if isinstance(p, ast.Compare) and len(p.ops) == 1 and isinstance(p.ops[0], (ast.Is, ast.IsNot)) \
+                        and isinstance(p.comparators[0], ast.Constant) and p.comparators[0].value is None and p.left is x:
+                    continue
+                return "`%s`" % norm(p if p is not None else x)
+            if x.id in ("self", "numpy", "np", "None", "True", "False") or x.id in _RPG_BUILTINS:
+                continue
+            if x.id in assigns or x.id in inloop:
+                if x.id in inloop:
+                    return "`%s`, bound in a loop" % x.id
+                if x.id in seen:
+                    continue
+                seen.append(x.id)
+                for a in assigns[x.id]:
+                    if a is None:
+                        return "`%s`, updated in place" % x.id
+                    r = scalar_only(a, depth + 1)
+                    if r is not None:
+                        return r
+                continue
+            if x.id in rd.params:
+                continue
+            return "the name `%s`" % x.id
+        return None
+
+    exprs = [t for t, _ in tests] + [rules.expand(a, fn) for a in call.args] + [rules.expand(k.value, fn) for k in call.keywords]
+    for e in exprs:
+        r = scalar_only(e)
+        if r is not None:
+            return None, "the guard or the slice depends on %s" % r
+    # Is the guard satisfiable by an arithmetic progression with a step of two or more and many rows?  The progression family
+    # rows[i] = a + s*i with a = s = size = K and self.nrows = K**4 is put into every atom that mentions the row request; an equality
+    # must be an identity in K, an order atom must hold as K grows (sign of the leading coefficient).  If so, for a large K the
+    # progression satisfies the guard, and so does the array that differs from it by +1 at a middle position (strictly ascending,
+    # in range, same size, same elements at the constant positions the tests read) -- which is not a progression, while the slice
+    # reader returns one.  (A guard such as rows[-1] - rows[0] == rows.size - 1, which does prove a contiguous range for distinct
+    # ascending rows, is not an identity in K and gives no verdict here.)
+    g = _t3_like_all([_ap_generic(t, truth, rownames) for t, truth in tests])
+    if g is not True:
+        return None, "the guarding tests are not shown to hold for progressions of any step and length"
+    return False, "all rows are not established under %s, and the tests and the slice `%s` read only single elements and the size of the " \
+                  "row request and hold for every long progression of step >= 2, hence also for row lists that are not progressions" % (
+                      {norm(t): ("T" if tr else "F") for t, tr in tests}, ", ".join(norm(a) for a in call.args))
+
+
+def _t3_like_all(rs):
+    """'indep' / True / False parts of a conjunction"""
+    rs = list(rs)
+    if any(r is False for r in rs):
+        return False
+    return True if any(r is True for r in rs) else "indep"
+
+
+class _ApUnsup(Exception):
+    pass
+
+
+def _ap_lower(e, rownames):
+    import sympy as sp
+    K = sp.Symbol("K", positive=True, integer=True)
+    if isinstance(e, ast.Constant) and isinstance(e.value, int) and not isinstance(e.value, bool):
+        return sp.Integer(e.value)
+    if isinstance(e, ast.Call) and isinstance(e.func, ast.Name) and e.func.id == "int" and len(e.args) == 1 and not e.keywords:
+        return _ap_lower(e.args[0], rownames)
+    if isinstance(e, ast.Call) and isinstance(e.func, ast.Name) and e.func.id == "len" and len(e.args) == 1 and not e.keywords:
+        if isinstance(e.args[0], ast.Name) and e.args[0].id in rownames:
+            return K
+        if norm(e.args[0]) == "self":
+            return K ** 4
+    if isinstance(e, ast.Attribute) and e.attr == "size" and isinstance(e.value, ast.Name) and e.value.id in rownames:
+        return K
+    if isinstance(e, ast.Subscript) and isinstance(e.value, ast.Attribute) and e.value.attr == "shape" and isinstance(e.value.value, ast.Name) \
+            and e.value.value.id in rownames and isinstance(e.slice, ast.Constant) and e.slice.value == 0:
+        return K
+    if isinstance(e, ast.Subscript) and isinstance(e.value, ast.Name) and e.value.id in rownames:
+        i = e.slice
+        if isinstance(i, ast.Constant) and isinstance(i.value, int) and not isinstance(i.value, bool) and i.value >= 0:
+            return K + K * i.value
+        if isinstance(i, ast.UnaryOp) and isinstance(i.op, ast.USub) and isinstance(i.operand, ast.Constant) and isinstance(i.operand.value, int) \
+                and not isinstance(i.operand.value, bool) and i.operand.value > 0:
+            return K + K * (K - i.operand.value)
+    if norm(e) == "self.nrows":
+        return K ** 4
+    if isinstance(e, ast.UnaryOp) and isinstance(e.op, (ast.USub, ast.UAdd)):
+        v = _ap_lower(e.operand, rownames)
+        return -v if isinstance(e.op, ast.USub) else v
+    if isinstance(e, ast.BinOp) and isinstance(e.op, (ast.Add, ast.Sub, ast.Mult)):
+        a, b = _ap_lower(e.left, rownames), _ap_lower(e.right, rownames)
+        return sp.expand(a + b if isinstance(e.op, ast.Add) else a - b if isinstance(e.op, ast.Sub) else a * b)
+    raise _ApUnsup(norm(e))
+
+
+def _ap_generic(t, truth, rownames):
+    """'indep' when t does not mention the row request; True when t == truth holds for the progression family as K grows; else False"""
+    import sympy as sp
+    if isinstance(t, ast.UnaryOp) and isinstance(t.op, ast.Not):
+        return _ap_generic(t.operand, not truth, rownames)
+    if isinstance(t, ast.Call) and isinstance(t.func, ast.Name) and t.func.id == "bool" and len(t.args) == 1 and not t.keywords:
+        return _ap_generic(t.args[0], truth, rownames)
+    if isinstance(t, ast.BoolOp):
+        parts = [_ap_generic(v, truth, rownames) for v in t.values]
+        if isinstance(t.op, ast.And) == truth:
+            return _t3_like_all(parts)
+        if any(p is True for p in parts):
+            return True
+        return "indep" if all(p == "indep" for p in parts) else False
+    if not any(isinstance(x, ast.Name) and x.id in rownames for x in ast.walk(t)):
+        return "indep"
+    if isinstance(t, ast.Compare) and len(t.ops) > 1:
+        if not truth:
+            return False
+        l, parts = t.left, []
+        for op, r in zip(t.ops, t.comparators):
+            parts.append(_ap_generic(ast.Compare(left=l, ops=[op], comparators=[r]), True, rownames))
+            l = r
+        return _t3_like_all(parts)
+    if isinstance(t, ast.Compare):
+        op, l, r = t.ops[0], t.left, t.comparators[0]
+        if isinstance(op, (ast.Is, ast.IsNot)):
+            if isinstance(l, ast.Name) and l.id in rownames and isinstance(r, ast.Constant) and r.value is None:
+                return isinstance(op, ast.IsNot) == truth
+            return False
+        try:
+            d = sp.expand(_ap_lower(l, rownames) - _ap_lower(r, rownames))
+        except _ApUnsup:
+            return False
+        K = sp.Symbol("K", positive=True, integer=True)
+        lead = sp.Poly(d, K).LC() if d != 0 else 0
+        sign = 0 if d == 0 else (1 if lead > 0 else -1)
+        holds = {ast.Eq: sign == 0, ast.NotEq: sign != 0, ast.Lt: sign < 0, ast.LtE: sign <= 0, ast.Gt: sign > 0, ast.GtE: sign >= 0}.get(type(op))
+        if holds is None:
+            return False
+        return holds == truth
+    return False
 
 
 def _r02_5_read_structural(chk, repo, F):
@@ -3616,8 +3849,17 @@ def _r02_5_read_structural(chk, repo, F):
         for c in rules.stmts_calls(n):
             if call_name(c) == "_read_binary_slice":
                 ts = dict(rules.controlling_tests(view, n))
-                okk, why = _fast_path_guarded(repo, rd, cfg, view, n)
+                kinds = []
+                okk, why = _fast_path_guarded(repo, rd, cfg, view, n, kinds)
                 guards.append(okk)
+                try:
+                    gok, gwhy = _row_progression_guard(rd, cfg, view, n, c, kinds)
+                except Exception as e:              # a defect of the analysis must never become a verdict
+                    gok, gwhy = None, "analysis failed: %s: %s" % (type(e).__name__, e)
+                chk.ob("R02.5g", rd.qualname + "::slice-reader-row-request", gok, rd.where(n.ast),
+                       "a call of the slice reader that is not guarded by `all rows are requested` must be guarded by a fact about every "
+                       "element of the row request (the rows are the slice's arithmetic progression): tests that read finitely many "
+                       "scalars of the row array (single elements, its size) cannot establish it (%s)" % gwhy)
                 chk.ob("R02.5e", rd.qualname + "::fast-path-guard", okk, rd.where(n.ast),
                        "the single-fread path is taken only for binary files when all rows and all columns are requested (%s; under %s)" % (why, ts))
                 chk.ob("R02.5e", rd.qualname + "::fast-path-slice", bool(c.args) and norm(c.args[0]) == "slice(0, self.nrows, 1)", rd.where(n.ast),
@@ -4044,12 +4286,288 @@ def r02_7(chk, cfun, S):
     sem = _r02_7j_semantic(chk, cfun)
     if not done:
         _r02_7j_structural(chk, cfun, sem)
+    _r02_7l_index_guard(chk, cfun)
     try:
         _r02_7k_binary_movers(chk, cfun)
     except AnalysisError:
         raise
     except Exception as e:              # a defect of the analysis must never become a verdict
         chk.ob("R02.7k", "binary-skip-helpers", None, CPP, "analysis failed: %s: %s" % (type(e).__name__, e))
+
+
+# ---------------------------------------------------------------------------
+# R02.7l: a column reader may take the loop index itself as the wanted file row / column (instead of element `index` of the row /
+# column request it was given) only when the request is everything: <number of requested rows> == <rows in the file> (the requests
+# are distinct and in range) or the request is None.  Decided over the C++ CFG: the branch outcomes that control the assignment
+# `wanted = index` are taken apart (! && ||), bool locals are followed to the definitions that reach the test (a literal that gives
+# the flag the tested value is justified by the branches that control it, any other value by what it says), and each atom is a
+# comparison of scalars.  A guard that is understood completely and does not imply the equality is a violation; a guard with calls,
+# members used as flags, or order comparisons of the two counts gives no verdict.
+# ---------------------------------------------------------------------------
+_COL_SINKS = ("read_from_text_column", "read_from_binary_column", "skip_rows", "skip_ascii_col_range", "skip_binary_rows", "skip_text_rows")
+_SCALAR_KINDS = ("DeclRefExpr", "MemberExpr", "IntegerLiteral", "CXXBoolLiteralExpr", "CXXThisExpr", "BinaryOperator", "UnaryOperator",
+                 "ImplicitCastExpr", "ParenExpr", "CStyleCastExpr", "CXXStaticCastExpr", "CXXFunctionalCastExpr", "ConstantExpr")
+
+
+def _t3_any(rs):
+    rs = list(rs)
+    return True if any(r is True for r in rs) else (None if any(r is None for r in rs) else False)
+
+
+def _t3_all(rs):
+    rs = list(rs)
+    return False if any(r is False for r in rs) else (None if any(r is None for r in rs) else True)
+
+
+class _IndexGuard(object):
+    def __init__(self, fn, cfun):
+        self.fn = fn
+        self.cfun = cfun
+        self.cfg = cfront.CCFG(fn)
+        self.view = self.cfg.view()
+        self.IN, _ = self.view.reaching_defs()
+        self.params = cfront.params_of(fn)
+        self.escaped = set()
+        for x in cfront.walk(cfront.body_of(fn)):
+            if x.get("kind") == "UnaryOperator" and x.get("opcode") == "&":
+                o = cfront.strip(x["inner"][0])
+                if o.get("kind") == "DeclRefExpr":
+                    self.escaped.add(cfront.render(o))
+            if x.get("kind") in ("CallExpr", "CXXMemberCallExpr", "CXXConstructExpr"):
+                for a in (x.get("inner", []) or [])[1:]:
+                    if isinstance(a, dict) and a.get("kind") == "DeclRefExpr":
+                        self.escaped.add(cfront.render(a))          # bound to a reference parameter
+        self.member_stores = set()
+        for x in cfront.walk(cfront.body_of(fn)):
+            if x.get("kind") in ("BinaryOperator", "CompoundAssignOperator") and (x.get("opcode") == "=" or x.get("kind") == "CompoundAssignOperator") \
+                    or (x.get("kind") == "UnaryOperator" and x.get("opcode") in ("++", "--")):
+                l = cfront.strip(x["inner"][0])
+                if l.get("kind") == "MemberExpr":
+                    self.member_stores.add(l.get("name"))
+
+    # -- small helpers -------------------------------------------------------------------------------------------------------
+    def in_loop(self, n):
+        return any(b.kind == "loop" for b, _ in self.view.controlling_branches(n))
+
+    def defs_of(self, name):
+        """[(node, rhs or None)] for every definition of local `name`"""
+        out = []
+        for n in self.cfg.nodes:
+            if not isinstance(n.c, dict):
+                continue
+            for x in cfront.walk(n.c):
+                k = x.get("kind")
+                if k == "VarDecl" and x.get("name") == name:
+                    ini = [y for y in x.get("inner", []) or [] if isinstance(y, dict) and y.get("kind")]
+                    if ini and "init" in x:
+                        out.append((n, ini[-1]))
+                elif k == "BinaryOperator" and x.get("opcode") == "=" and cfront.render(cfront.strip(x["inner"][0])) == name \
+                        and cfront.strip(x["inner"][0]).get("kind") == "DeclRefExpr":
+                    out.append((n, x["inner"][1]))
+                elif (k == "CompoundAssignOperator" or (k == "UnaryOperator" and x.get("opcode") in ("++", "--"))) \
+                        and cfront.strip(x["inner"][0]).get("kind") == "DeclRefExpr" and cfront.render(cfront.strip(x["inner"][0])) == name:
+                    out.append((n, None))
+        return out
+
+    def scalar(self, e):
+        for x in cfront.walk(e):
+            if x.get("kind") not in _SCALAR_KINDS:
+                return False
+            if x.get("kind") == "BinaryOperator" and x.get("opcode") not in ("+", "-", "*"):
+                return False
+            if x.get("kind") == "UnaryOperator" and x.get("opcode") not in ("-", "+", "&"):
+                return False
+            if x.get("kind") == "MemberExpr" and x.get("name") in self.member_stores:
+                return False
+        return True
+
+    # -- the implication ----------------------------------------------------------------------------------------------------
+    def is_all_fact(self, a, b):
+        ra, rb = cfront.render(cfront.strip(a)), cfront.render(cfront.strip(b))
+        for x, y in ((ra, rb), (rb, ra)):
+            if x == self.bound and y in self.totals:
+                return True
+            if x == self.req and "_Py_NoneStruct" in y:
+                return True
+        return False
+
+    def implies(self, e, truth, at, depth=0):
+        """does expression e having the truth value `truth` (evaluated at node `at`) imply that the request is everything?"""
+        e = cfront.strip(e)
+        k = e.get("kind")
+        inner = [c for c in (e.get("inner", []) or []) if isinstance(c, dict) and c.get("kind")]
+        if k == "UnaryOperator" and e.get("opcode") == "!":
+            return self.implies(inner[0], not truth, at, depth)
+        if k == "BinaryOperator" and e.get("opcode") in ("&&", "||"):
+            parts = [self.implies(x, truth, at, depth) for x in inner]
+            return _t3_any(parts) if (e["opcode"] == "&&") == truth else _t3_all(parts)
+        if k == "BinaryOperator" and e.get("opcode") in ("==", "!="):
+            if not (self.scalar(inner[0]) and self.scalar(inner[1])):
+                return None
+            if (e["opcode"] == "==") == truth:
+                return self.is_all_fact(inner[0], inner[1])
+            return False
+        if k == "BinaryOperator" and e.get("opcode") in ("<", ">", "<=", ">="):
+            if not (self.scalar(inner[0]) and self.scalar(inner[1])):
+                return None
+            names = {cfront.render(cfront.strip(inner[0])), cfront.render(cfront.strip(inner[1]))}
+            if self.bound in names and names & self.totals:
+                return None         # count >= total means count == total for distinct in-range requests: not decided here
+            return False
+        if k in ("CXXBoolLiteralExpr", "IntegerLiteral"):
+            val = bool(e.get("value")) if k == "CXXBoolLiteralExpr" else str(e.get("value")) not in ("0",)
+            return val != truth         # a test that cannot have this outcome implies anything
+        if k == "DeclRefExpr" and e.get("referencedDecl", {}).get("kind") == "VarDecl" and e.get("type", {}).get("qualType") in ("bool", "int"):
+            return self.flag(cfront.render(e), truth, at, depth + 1)
+        return None
+
+    def flag(self, name, truth, at, depth):
+        if depth > 4 or name in self.escaped:
+            return None
+        reach = self.IN.get(at.id, {}).get(name)
+        if not reach or self.cfg.entry.id in reach:
+            return None
+        defs = self.defs_of(name)
+        out = []
+        for d in sorted(reach):
+            dn = self.cfg.node(d)
+            here = [rhs for n, rhs in defs if n.id == d]
+            if len(here) != 1 or here[0] is None or self.in_loop(dn):
+                return None
+            rhs = cfront.strip(here[0])
+            if rhs.get("kind") in ("CXXBoolLiteralExpr", "IntegerLiteral"):
+                val = bool(rhs.get("value")) if rhs["kind"] == "CXXBoolLiteralExpr" else str(rhs.get("value")) not in ("0",)
+                if val != truth:
+                    continue            # this definition cannot give the flag the tested value
+                out.append(self.control(dn, depth))
+            else:
+                out.append(_t3_any([self.implies(rhs, truth, dn, depth), self.control(dn, depth)]))
+        return _t3_all(out) if out else True
+
+    def control(self, n, depth=0):
+        rs = []
+        for b, lab in self.view.controlling_branches(n):
+            if b.c is None or lab not in ("T", "F"):
+                continue
+            rs.append(self.implies(b.c, lab == "T", b, depth))
+        return _t3_any(rs) if rs else False
+
+    # -- the instances ------------------------------------------------------------------------------------------------------
+    def instances(self):
+        """[(key, node, ok, text)]"""
+        out = []
+        roles = {}
+        if len(self.params) == 3:
+            roles = {self.params[1]: ("column", "mNfields"), self.params[2]: ("row", "mNrows")}
+        loops = {}
+        for h in self.cfg.nodes:
+            if h.kind == "loop" and h.label == "for" and isinstance(h.c, dict):
+                c = cfront.strip(h.c)
+                if c.get("kind") == "BinaryOperator" and c.get("opcode") == "<":
+                    i, b = cfront.strip(c["inner"][0]), cfront.strip(c["inner"][1])
+                    if i.get("kind") == "DeclRefExpr" and b.get("kind") == "DeclRefExpr":
+                        loops[cfront.render(i)] = (h, cfront.render(b))
+        sinks = set()
+        for c in cfront.calls_in(cfront.body_of(self.fn)):
+            if cfront.callee_name(c) in _COL_SINKS:
+                for a in cfront.call_args(c):
+                    a = cfront.strip(a)
+                    if a.get("kind") == "DeclRefExpr":
+                        sinks.add(cfront.render(a))
+        for n in self.cfg.nodes:
+            if n.kind != "stmt" or not isinstance(n.c, dict):
+                continue
+            for x in cfront.walk(n.c):
+                tgt = rhs = None
+                if x.get("kind") == "BinaryOperator" and x.get("opcode") == "=" and cfront.strip(x["inner"][0]).get("kind") == "DeclRefExpr":
+                    tgt, rhs = cfront.render(cfront.strip(x["inner"][0])), x["inner"][1]
+                elif x.get("kind") == "VarDecl" and "init" in x:
+                    ini = [y for y in x.get("inner", []) or [] if isinstance(y, dict) and y.get("kind")]
+                    if ini:
+                        tgt, rhs = x.get("name"), ini[-1]
+                if tgt is None or tgt not in sinks:
+                    continue
+                arms = [(cfront.strip(rhs), None, None)]
+                r0 = cfront.strip(rhs)
+                if r0.get("kind") == "ConditionalOperator":
+                    ci = [c for c in r0.get("inner", []) if isinstance(c, dict) and c.get("kind")]
+                    arms = [(cfront.strip(ci[1]), ci[0], True), (cfront.strip(ci[2]), ci[0], False)]
+                for arm, cond, ctruth in arms:
+                    if arm.get("kind") != "DeclRefExpr" or cfront.render(arm) not in loops:
+                        continue
+                    idx = cfront.render(arm)
+                    h, bound = loops[idx]
+                    if not any(b is h and lab == "T" for b, lab in self.view.controlling_branches(n)):
+                        continue
+                    # which request does the loop run over?  the one its bound is computed from
+                    bdefs = self.defs_of(bound)
+                    req = None
+                    if len(bdefs) == 1 and bdefs[0][1] is not None and bound not in self.escaped:
+                        ment = {cfront.render(y) for y in cfront.walk(bdefs[0][1]) if y.get("kind") == "DeclRefExpr"} & set(roles)
+                        if len(ment) == 1:
+                            req = next(iter(ment))
+                    key = "%s::%s-from-index" % (self.fn.get("name"), tgt)
+                    if req is None:
+                        out.append((key, n, None, "the request that loop bound `%s` counts was not identified" % bound))
+                        continue
+                    what, total = roles[req]
+                    self.bound, self.req = bound, req
+                    self.totals = {total}
+                    # the count helper's value for a None request is the total as well
+                    for c in cfront.calls_in(bdefs[0][1]):
+                        callee = self.cfun.get("Records::%s" % cfront.callee_name(c)) or self.cfun.get(cfront.callee_name(c) or "")
+                        if callee is not None and callee is not self.fn:
+                            for y in cfront.walk(cfront.body_of(callee)):
+                                if y.get("kind") == "VarDecl" and "init" in y:
+                                    ini = [z for z in y.get("inner", []) or [] if isinstance(z, dict) and z.get("kind")]
+                                    if ini and cfront.strip(ini[-1]).get("kind") == "MemberExpr" and \
+                                            cfront.strip(cfront.strip(ini[-1])["inner"][0]).get("kind") == "CXXThisExpr":
+                                        self.totals.add(cfront.strip(ini[-1]).get("name"))
+                    if self.totals & self.member_stores:
+                        out.append((key, n, None, "the reader assigns %s" % sorted(self.totals & self.member_stores)))
+                        continue
+                    rs = [self.control(n)]
+                    if cond is not None:
+                        rs.append(self.implies(cond, ctruth, n))
+                    ok = _t3_any(rs)
+                    guards = ["%s is %s" % (b.text(), "true" if lab == "T" else "false") for b, lab in self.view.controlling_branches(n)
+                              if b is not h and b.c is not None and b.kind == "branch"]
+                    if cond is not None:
+                        guards.append("%s is %s" % (cfront.render(cond), "true" if ctruth else "false"))
+                    flagtxt = []
+                    for g, _ in self.view.controlling_branches(n):
+                        gc = cfront.strip(g.c) if isinstance(g.c, dict) else {}
+                        while gc.get("kind") == "UnaryOperator" and gc.get("opcode") == "!":
+                            gc = cfront.strip(gc["inner"][0])
+                        if gc.get("kind") == "DeclRefExpr":
+                            for dn, r in self.defs_of(cfront.render(gc)):
+                                if r is not None and cfront.strip(r).get("kind") not in ("CXXBoolLiteralExpr", "IntegerLiteral"):
+                                    flagtxt.append("%s = %s" % (cfront.render(gc), cfront.render(r)))
+                    out.append((key, n, ok,
+                                "wanted %s `%s` is taken to be the loop index `%s` itself, not element `%s` of `%s`, when %s%s: %s"
+                                % (what, tgt, idx, idx, req, " and ".join(guards) or "(unconditionally)",
+                                   " [%s]" % "; ".join(flagtxt) if flagtxt else "",
+                                   "that establishes %s == %s" % (bound, "/".join(sorted(self.totals))) if ok else
+                                   "that does not establish that every %s is requested (%s == %s, or %s is None)"
+                                   % (what, bound, "/".join(sorted(self.totals)), req) if ok is False else "guard not understood")))
+        return out
+
+
+def _r02_7l_index_guard(chk, cfun):
+    for fname in ("Records::read_text_columns", "Records::read_binary_columns"):
+        fn = cfun.get(fname)
+        if fn is None:
+            continue
+        try:
+            inst = _IndexGuard(fn, cfun).instances()
+        except AnalysisError:
+            raise
+        except Exception as e:              # a defect of the analysis must never become a verdict
+            chk.ob("R02.7l", fname + "::index-for-position", None, _cwhere(fn), "analysis failed: %s: %s" % (type(e).__name__, e))
+            continue
+        for key, n, ok, text in inst:
+            chk.ob("R02.7l", "Records::" + key, ok, "%s:%s" % (CPP, n.lineno or (fn.get("line") or 0)),
+                   "the loop index stands for the wanted file position only when the whole table dimension is requested: " + text)
 
 
 def _r02_7i_absolute_seek(fn):
